@@ -11,6 +11,7 @@ import (
 // Checks is the registry of scheduler-based checks.
 var Checks = map[string]vk.Check{
 	"C04": C04,
+	"C10": C10,
 }
 
 // TestWorker is the entry point of the worker binary (`go test -c`): synctest needs a
